@@ -50,6 +50,11 @@ def distinct(key):
     _distinct.add(hashlib.md5(key).hexdigest()[:12])
 
 
+def distinct_by_construction(n):
+    """n further cases that are distinct by construction (e.g. enumerated integers)."""
+    count("distinct_by_construction", n)
+
+
 def sample(obj):
     if len(_samples) < MAX_SAMPLES:
         _samples.append(obj)
